@@ -494,12 +494,17 @@ def hs_decode(txt):
 
 
 # ---------------------------------------------------------------------------------------------------------
-# end to end: bytes of a version-2 dump -> PyKdebugParser.formatted_traces lines (driver command `e2e`)
+# end to end: bytes of a version-2 / version-3 dump -> PyKdebugParser.formatted_traces lines (driver command `e2e`)
 #
 # A case: the whole dump (`whole`), the bytes actually parsed (`file` = whole[:cut], or the whole dump when `cut` is
 # None), the offset of the first record (`hdr`), the thread map (`tmap`), whether the first record begins with a zero
 # byte (`k1`: the padding skipper eats it — known finding K1 of C02; the truncation claims hold for such dumps too),
 # filter settings and the six show_* switches.
+# A version-3 case has moreover: `v3` (the description `containers.gen_v3` produces: header fields, cpu_info, stackshot
+# filler and gaps with near-miss tag prefixes, thread-map chunk with trailing bytes, the records split into 1..4 chunks
+# with size remainders, additional-data blocks), `plists` (what plistlib gives for each payload that loads — the `plist`
+# parameter of the model), `recpos` (offset of every record in the dump, computed from the grammar), `marks` (the
+# structural offsets) and `tailerr` (the exception the blocks behind the last chunk are built to raise, '-' for none).
 
 E2E_NAMES = ['launchd', 'kernel_task', 'a', '', 'naïve', 'x' * 19]
 E2E_CONFIGS = [
@@ -526,6 +531,86 @@ def v2_bytes(tmap, recs, pad=0, is64=1, tick=24000000):
     return b''.join(out)
 
 
+def v3_layout(f):
+    """Structural offsets of `containers.v3_bytes(f)` computed from the grammar (not from the encoder): (marks, recpos)."""
+    from . import containers as CT
+    off = 4
+    marks = [0, off]
+    body = 60 + 8 + len(f['cpu']) // 2
+    marks += [off + 60, off + 68, off + body]
+    off += body + (-body % 8)
+    marks.append(off)
+    off += 4
+    marks.append(off)
+    off += len(f['filler']) // 2
+    marks.append(off)
+    off += len(CT.STACKSHOT_END)
+    marks.append(off)
+    off += len(f['gap1']) // 2
+    marks.append(off)
+    off += 8
+    marks.append(off)
+    off += 8
+    for _ in f['threads']:
+        marks.append(off)
+        off += 32
+    marks.append(off)
+    off += len(f['tmtrail']) // 2
+    recpos = []
+    for i, c in enumerate(f['chunks']):
+        if i > 0:
+            marks.append(off)
+            off += 8
+        marks.append(off)
+        off += len(c['gap']) // 2
+        marks += [off, off + 8, off + 16, off + 24]
+        off += 24
+        for _ in c['recs']:
+            recpos.append(off)
+            off += 64
+    for b in f['blocks']:
+        n = len(b['payload']) // 2
+        marks += [off, off + 8, off + 16, off + 16 + n]
+        off += 16 + n
+        if b['padded']:
+            off += -(8 + n) % 8
+    marks.append(off)
+    return sorted(set(marks)), recpos
+
+
+def e2e_v3_file(rng, tmap, recs, tail=None):
+    """A version-3 dump description around the given thread map and records (`containers.gen_v3` supplies header, cpu_info,
+    filler, gaps and blocks).  tail: None | 'badplist' | 'nostring' | 'badcodes' — a block that makes the reader raise
+    behind the last chunk."""
+    from . import containers as CT
+    f = CT.gen_v3(rng, small=True)
+    f['threads'] = [[t, p, n.encode('utf-8').hex()] for t, p, n in tmap]
+    nrec = len(recs)
+    nch = rng.randrange(1, min(4, nrec + 1) + 1)
+    cuts = sorted(rng.randrange(nrec + 1) for _ in range(nch - 1))
+    chunks, prev = [], 0
+    for c in cuts + [nrec]:
+        chunks.append({'gap': CT.gen_scan_gap(rng, CT.TAG_EVENTS, 24).hex(), 'extra': rng.choice([0, 0, 1, 63, rng.randrange(64)]),
+                       'unk': rng.choice([bytes(8), rng.randbytes(8)]).hex(), 'recs': [r.hex() for r in recs[prev:c]]})
+        prev = c
+    f['chunks'] = chunks
+    tailerr = '-'
+    if tail is not None:
+        if tail == 'badplist':
+            blk, tailerr = [rng.choice([CT.TAG_PROCS, CT.TAG_IMAGES, CT.TAG_KEXTS, CT.TAG_DYLD, CT.TAG_LOGS, CT.TAG_STRINGS]),
+                            rng.choice([b'\x01\x02\x03', b'bplist00', b'', b'<plist'])], 'ValueError'
+        elif tail == 'nostring':
+            blk, tailerr = [CT.TAG_LOGS, CT.bplist({'Events': [CT.gen_raw_log(rng, [424242], rng.random() < 0.5, True, 7)]})], 'KeyError'
+        else:
+            blk, tailerr = [CT.TAG_CODES, b'0x1\tA\n\xff\xfe'], 'UnicodeError'
+        at = len(f['blocks']) if tail == 'nostring' else rng.randrange(len(f['blocks']) + 1)
+        for b in f['blocks']:
+            b['padded'] = True
+        f['blocks'].insert(at, {'tag': blk[0].hex(), 'payload': blk[1].hex(), 'padded': True})
+        f['blocks'][-1]['padded'] = rng.random() < 0.5
+    return f, tailerr
+
+
 def e2e_random_config(rng, tids):
     r = rng.random()
     classes = [] if r < 0.5 else rng.choice([[4], [4, 7], [7], [3, 4], [1], [0x25], [4, 1], [0x1f]])
@@ -535,7 +620,7 @@ def e2e_random_config(rng, tids):
     return {'tid': tid, 'classes': classes, 'subs': subs, 'proc': proc}
 
 
-def e2e_case(rng, cut='random', config=None, ops=None, k1=False, plain=0.0):
+def e2e_case(rng, cut='random', config=None, ops=None, k1=False, plain=0.0, v3=False, tail=None):
     s = Stream(rng)
     s.ts = 256 * rng.randrange(1, 1000)           # the first record must not begin with a zero byte (K1)
     tids = [rng.choice([5, 6, 7, 99, 1000]) for _ in range(3)]
@@ -544,6 +629,9 @@ def e2e_case(rng, cut='random', config=None, ops=None, k1=False, plain=0.0):
     recs = s.recs
     if recs and recs[0][0] == 0:
         recs = [bytes([1]) + recs[0][1:]] + recs[1:]
+    if v3 and recs and rng.random() < 0.3:        # version 3 has no padding skipper: leading zero bytes are just a timestamp
+        z = rng.randrange(1, 4)
+        recs = [bytes(z) + recs[0][z:]] + recs[1:]
     if k1 and recs:                               # timestamp with 1..3 low zero bytes: eaten by the padding skipper
         z = rng.randrange(1, 4)
         recs = [bytes(z) + bytes([rng.randrange(1, 256)]) + recs[0][z + 1:]] + recs[1:]
@@ -551,9 +639,19 @@ def e2e_case(rng, cut='random', config=None, ops=None, k1=False, plain=0.0):
             for t in rng.sample(sorted(set(tids)), rng.randrange(0, len(set(tids)) + 1))]
     if rng.random() < 0.2 and tmap:               # a later entry for the same thread / the same pid wins
         tmap.append((tmap[0][0], rng.choice([1, 42, 77, 78]), rng.choice(E2E_NAMES)))
-    pad = rng.choice([0, 0, 0, 1, 4, 7, 12])
-    whole = v2_bytes(tmap, recs, pad)
-    hdr = len(whole) - 64 * len(recs)
+    extra = {}
+    if v3:
+        from . import containers as CT
+        f, tailerr = e2e_v3_file(rng, tmap, recs, tail)
+        whole = CT.v3_bytes(f)
+        marks, recpos = v3_layout(f)
+        assert marks[-1] == len(whole) and all(whole[q:q + 64] == r for q, r in zip(recpos, recs)), 'v3 layout'
+        hdr = recpos[0] if recpos else len(whole)
+        extra = {'v3': f, 'plists': CT.v3_plists(f), 'recpos': recpos, 'marks': marks, 'tailerr': tailerr}
+    else:
+        pad = rng.choice([0, 0, 0, 1, 4, 7, 12])
+        whole = v2_bytes(tmap, recs, pad)
+        hdr = len(whole) - 64 * len(recs)
     k = None
     if cut == 'random' and rng.random() < 0.25:
         k = rng.randrange(0, len(whole) + 1)
@@ -563,6 +661,7 @@ def e2e_case(rng, cut='random', config=None, ops=None, k1=False, plain=0.0):
     codes = restricted_codes(recs, extra=('VFS_LOOKUP',))
     c = {'codes': {str(kk): v for kk, v in codes.items()}, 'whole': whole.hex(), 'hdr': hdr, 'k1': bool(k1 and recs),
          'tmap': [list(x) for x in tmap], 'bits': bits, 'cut': k}
+    c.update(extra)
     c.update(config)
     c['file'] = (whole if k is None else whole[:k]).hex()
     return c
@@ -572,6 +671,13 @@ def e2e_cut_offsets(c, every):
     n, hdr = len(c['whole']) // 2, c['hdr']
     if every:
         return list(range(n + 1))
+    if c.get('v3'):
+        ks = {0, 1, 3, 4, 5, 8, 20, n - 1, n}
+        for m in c['marks']:                                                    # every structural boundary of the grammar
+            ks |= {m - 1, m, m + 1, m + 7}
+        for b in c['recpos'] + [q + 64 for q in c['recpos'][-1:]]:
+            ks |= {b - 13, b - 1, b, b + 1, b + 7, b + 8, b + 40, b + 47, b + 48, b + 50, b + 52, b + 63}
+        return sorted(k for k in ks if 0 <= k <= n)
     tm_end = 4 + 284 + 32 * len(c['tmap'])
     ks = {0, 1, 3, 4, 5, 8, 20, 287, 288, 289, 300, tm_end - 33, tm_end - 1, tm_end, tm_end + 1, hdr - 1, hdr, hdr + 1, n - 1, n}
     ks |= set(range(tm_end, hdr + 1))                                        # every cut inside the padding
@@ -585,9 +691,14 @@ def e2e_cut_cases(rng, tier):
     fields, the thread map, the padding, and around every record boundary and field boundary of a record."""
     out = []
     ndumps = 3 if tier == 'quick' else 8
-    for j in range(ndumps):
-        cfg = E2E_CONFIGS[j] if j < len(E2E_CONFIGS) else None
-        base = e2e_case(rng, cut=None, config=cfg, ops=rng.randrange(1, 4), k1=(j % 3 == 2))
+    n3 = 2 if tier == 'quick' else 4                                            # version-3 dumps behind the version-2 ones
+    for j in range(ndumps + n3):
+        cfg = E2E_CONFIGS[j % ndumps] if j % ndumps < len(E2E_CONFIGS) else None
+        if j < ndumps:
+            base = e2e_case(rng, cut=None, config=cfg, ops=rng.randrange(1, 4), k1=(j % 3 == 2))
+        else:
+            base = e2e_case(rng, cut=None, config=cfg, ops=rng.randrange(1, 4), v3=True,
+                            tail=[None, 'badplist', 'nostring', None][j - ndumps])
         whole = bytes.fromhex(base['whole'])
         for k in e2e_cut_offsets(base, every=(tier != 'quick')):
             c = dict(base)
@@ -598,9 +709,10 @@ def e2e_cut_cases(rng, tier):
 
 def e2e_line(c):
     codes = {int(k): v for k, v in c['codes'].items()}
-    return 'e2e %s %s %s %s %s %s %s' % (
+    return 'e2e %s %s %s %s %s %s %s%s' % (
         codes_arg(codes), 'N' if c['tid'] is None else c['tid'], ','.join(map(str, c['classes'])) or '-',
-        ','.join(map(str, c['subs'])) or '-', 'N' if c['proc'] is None else hs(c['proc']), c['bits'], c['file'] or '-')
+        ','.join(map(str, c['subs'])) or '-', 'N' if c['proc'] is None else hs(c['proc']), c['bits'],
+        (c['plists'] + ' ') if c.get('plists') is not None else '', c['file'] or '-')
 
 
 def e2e_parser(c, proc='case'):
@@ -613,6 +725,12 @@ def e2e_parser(c, proc='case'):
     return p
 
 
+def e2e_err_name(e):
+    """plistlib's own failures (property list of a version-3 dump that does not load) are the model's ValueError."""
+    from . import containers as CT
+    return CT.out_err(e)
+
+
 def e2e_lines(c, data):
     """(lines formatted_traces yields for `data` before it stops, name of the exception that stopped it or '-')."""
     import io
@@ -623,7 +741,7 @@ def e2e_lines(c, data):
         for ln in p.formatted_traces(io.BytesIO(data), codes):
             lines.append(ln)
     except Exception as e:
-        err = core.err_name(e)
+        err = e2e_err_name(e)
     return lines, err
 
 
@@ -665,8 +783,15 @@ def e2e_expected_from_traces(c, data, proc='case', keep=None):
                 continue
             exp.append(e2e_header_text(c, p, k0.tid, k0.timestamp) + str(t))
     except Exception as e:
-        err = core.err_name(e)
+        err = e2e_err_name(e)
     return exp, err
+
+
+def e2e_record_offsets(c):
+    """where the grammar puts the records: behind the padding (version 2) / in the chunks (version 3)."""
+    if c.get('v3'):
+        return list(c['recpos'])
+    return list(range(c['hdr'], len(c['whole']) // 2, 64))
 
 
 def e2e_expected_from_records(c):
@@ -684,7 +809,7 @@ def e2e_expected_from_records(c):
     tp = TracesParser(codes, Tabs.threads_pids, Tabs.pids_names)
     exp, err = [], '-'
     try:
-        for off in range(c['hdr'], len(whole), 64):
+        for off in e2e_record_offsets(c):
             r = whole[off:off + 64]
             dbg = int.from_bytes(r[48:52], 'little')
             ev = Kevent(int.from_bytes(r[0:8], 'little'), r[8:40],
@@ -756,7 +881,8 @@ def e2e_oracle(c, got):
             return ('e2e:cut-not-prefix', 'cut at %d of %d: %s are not a prefix of the complete dump\'s %s'
                     % (k, len(c['whole']) // 2, e2e_show(lines), e2e_show(full)))
         if k >= hdr:
-            kb = hdr + 64 * ((k - hdr) // 64)
+            # the last offset <= k at which only complete records have been read
+            kb = max([hdr] + [q + 64 for q in e2e_record_offsets(c) if q + 64 <= k])
             at_b, _ = e2e_cached_lines(c, kb)
             if at_b != lines[:len(at_b)]:
                 return ('e2e:cut-not-monotone', 'the lines reported for the cut at %d (%s) are withdrawn by the longer cut at %d (%s)'
@@ -802,16 +928,22 @@ def e2e_oracle(c, got):
     # C02 (+C01): the container hands the trace layer exactly the thread map and the decoded records
     if k is None and plain and c['proc'] is None and not c['k1']:
         exp, exp_err = e2e_expected_from_records(c)
+        if exp_err == '-' and c.get('v3'):
+            # version 3: what the blocks behind the last chunk raise surfaces after every line
+            exp_err = c['tailerr']
         if exp != lines or exp_err != err:
             return ('e2e:container-glue', 'whole dump: %s, but its thread map and its records fed to the decoders directly give %s '
                     '(exceptions %s / %s)' % (e2e_show(lines), e2e_show(exp), err, exp_err))
     return None
 
 
-def section_e2e(rep, rng, tier, n=None, oracle_fn=None, cuts=False, plain=0.0):
+def section_e2e(rep, rng, tier, n=None, oracle_fn=None, cuts=False, plain=0.0, only_v3=False):
     n = n or (250 if tier == 'quick' else 8000)
-    cases = [e2e_case(rng, plain=plain) for _ in range(n)]
-    cases += [e2e_case(rng, k1=True) for _ in range(max(4, n // 25))]
+    cases = [] if only_v3 else [e2e_case(rng, plain=plain) for _ in range(n)]
+    cases += [] if only_v3 else [e2e_case(rng, k1=True) for _ in range(max(4, n // 25))]
+    cases += [e2e_case(rng, plain=plain, v3=True) for _ in range(n if only_v3 else max(20, n // 3))]
+    cases += [e2e_case(rng, plain=max(plain, 0.5), v3=True, tail=rng.choice(['badplist', 'nostring', 'badcodes']))
+              for _ in range(max(6, n // 20))]
     if cuts:
         cases += e2e_cut_cases(rng, tier)
 
@@ -820,17 +952,22 @@ def section_e2e(rep, rng, tier, n=None, oracle_fn=None, cuts=False, plain=0.0):
     core.run_section(
         rep, 'end-to-end', cases, line_fn=e2e_line, impl_fn=e2e_impl, oracle_fn=oracle, skip_fn=lambda m: 'Unmodelled' in m,
         nontrivial_fn=lambda c, got: not got.startswith('ok - '),
-        kind_fn=lambda c, got: ('cut' if c['cut'] is not None else 'whole') + (':k1' if c['k1'] else '') + ':'
-        + got.rsplit(';err=', 1)[1],
+        kind_fn=lambda c, got: ('v3:' if c.get('v3') else '') + ('cut' if c['cut'] is not None else 'whole')
+        + (':k1' if c['k1'] else '') + ':' + got.rsplit(';err=', 1)[1],
         rule='bytes of a version-2 dump (thread map with duplicate keys, 0..12 bytes of padding, random operations, sometimes '
              'truncated; with cuts=True a few small dumps cut at EVERY offset incl. magic, header, thread map, padding, and dumps '
-             'whose first record begins with zero bytes) x tid / process / class / subclass filters x the six show_* switches: the '
+             'whose first record begins with zero bytes) and of a version-3 dump (random header and cpu_info, stackshot filler '
+             'and gaps with near-miss tag prefixes, thread-map chunk with trailing bytes, the records split into 1..4 chunks with '
+             'size remainders, additional-data blocks incl. log records naming processes, and blocks that make the reader raise '
+             'behind the last chunk: property list that does not load, unknown string id, undecodable trace codes; cut at '
+             'random / every structural / every offset) x tid / process / class / subclass filters x the six show_* switches: the '
              'lines of PyKdebugParser.formatted_traces(BytesIO(file), codes) with colour off vs the composition of the layer models '
              '(container -> event filter -> TracesParser -> post-filters -> line builder), including the exception that ends the '
              'iteration; oracles on the code alone: lines of the cut are a prefix of the lines of the whole dump, never withdrawn by '
              'a longer cut, none from a partial record; every line = first record + tables at the yield + text of its trace; the '
-             'process filter selects among the unfiltered traces; the whole unfiltered dump = its records fed to the decoders',
-        sample_fn=lambda c: {kk: c[kk] for kk in ('tid', 'classes', 'subs', 'proc', 'bits', 'cut')})
+             'process filter selects among the unfiltered traces; the whole unfiltered dump = its records (version 3: of all '
+             'chunks) fed to the decoders, and an exception of the blocks behind the last chunk surfaces after every line',
+        sample_fn=lambda c: {kk: c.get(kk) for kk in ('tid', 'classes', 'subs', 'proc', 'bits', 'cut', 'tailerr')})
 
 
 def replay_e2e(case, prop, path):
@@ -839,7 +976,11 @@ def replay_e2e(case, prop, path):
     model = core.drive([e2e_line(case)])[0]
     res = e2e_oracle(case, got)
     print('section: end-to-end')
-    print('settings:', {kk: case[kk] for kk in ('tid', 'classes', 'subs', 'proc', 'bits', 'cut', 'hdr', 'k1', 'tmap')})
+    print('settings:', {kk: case.get(kk) for kk in ('tid', 'classes', 'subs', 'proc', 'bits', 'cut', 'hdr', 'k1', 'tmap', 'recpos',
+                                                  'tailerr')})
+    if case.get('v3'):
+        print('v3   :', {kk: vv for kk, vv in case['v3'].items() if kk != 'chunks'},
+              [(c['gap'], c['extra'], len(c['recs'])) for c in case['v3']['chunks']])
     print('file :', case['file'][:600] + ('…' if len(case['file']) > 600 else ''))
     print('impl :', e2e_parse_answer(got) if got.startswith('ok ') else got[:2000])
     print('model:', e2e_parse_answer(model) if model.startswith('ok ') else model[:2000])
